@@ -25,7 +25,7 @@ def main():
             continue
         caught = meta["detection"].split("MISSED")[-1]
         checks = sorted(set(re.findall(r"C\d\d", caught.split("not by")[0])) | {meta["property"]})
-        if meta.get("round") == 5 and os.environ.get("ROUND5_ONLY_CATCHERS"):
+        if os.environ.get("ONLY_CATCHERS") or (meta.get("round") == 5 and os.environ.get("ROUND5_ONLY_CATCHERS")):
             checks = sorted(set(re.findall(r"C\d\d", caught.split("not by")[0]))) or [meta["property"]]
         sh(f"git -C /repo worktree remove --force {WT}; rm -rf {WT}; git -C /repo worktree prune")
         r = sh(f"git -C /repo worktree add --detach {WT} HEAD && git -C {WT} apply {d}/patch.diff")
